@@ -491,3 +491,14 @@ Proof.
   destruct (Z.eqb_spec state 1), (Z.eqb_spec state 2), (Z.eqb_spec counter (tv_init_cycles k)),
     (Z.eqb_spec counter (tv_gen_cycles bw k - 1)); cbn; intros; try discriminate; auto.
 Qed.
+
+(* ---------------- the degenerate seed 0 (legal as an integer seed): all-zero streams ---------------- *)
+Theorem zero_seed_streams : forall n,
+  lfsr_stream n 0 = repeat false n /\ xoro_words n (0, 0) = repeat 0 n.
+Proof.
+  induction n as [|n [IH1 IH2]]; [split; reflexivity|].
+  split.
+  - cbn [lfsr_stream repeat]. change (lfsr_fb 0) with false. change (lfsr_step 127 0) with 0. rewrite IH1. reflexivity.
+  - cbn [xoro_words repeat]. change (fst (xoro_next (0, 0))) with 0. change (snd (xoro_next (0, 0))) with (0, 0).
+    rewrite IH2. reflexivity.
+Qed.
